@@ -263,6 +263,19 @@ def run_case(case):
     if case['kind'] == 'model':
         r = C01.run_case({'spec': case['spec'], 'cfg': case['cfg'], 'seed': case.get('seed', 0)})
         if not r.get('ok') and 'viol' in r:
+            # a deviation from the reference that the Python-class definition of the same model shows identically is a
+            # defect of the compiler (C01's subject), not a difference between the frontends
+            from .. import pool
+            pool.fresh_state()
+            rp = C01.run_case({'spec': case['spec'], 'cfg': dict(case['cfg'], frontend='python'), 'seed': case.get('seed', 0)})
+            vp, vy = rp.get('viol') or {}, r['viol']
+            same = (not rp.get('ok')) and vp.get('kind') == vy.get('kind') and vp.get('var') == vy.get('var') and \
+                (vp.get('got') == vy.get('got') or (isinstance(vp.get('got'), float) and isinstance(vy.get('got'), float)
+                                                   and abs(vp['got'] - vy['got']) <= 1e-12 * max(1.0, abs(vy['got'])))) and \
+                str(vp.get('detail')) == str(vy.get('detail'))
+            if same:
+                return {'ok': True, 'nontrivial': True, 'evals': r.get('evals', 0), 'outcome': 'same_deviation_in_python_frontend',
+                        'shared_compiler_defect': True}
             r['viol']['sig'] = dict(r['viol'].get('sig') or {}, frontend=case['cfg']['frontend'], tag=case['tag'])
             feats = list(r['viol']['sig'].get('features') or [])
             if case['cfg']['frontend'] == 'roundtrip' and any(ov for tpl in case['spec']['node_tpls'].values() for _, ov in tpl):
